@@ -113,6 +113,7 @@ func genSPDXDoc(t *rapid.T) *sbom.Document {
 			})
 		}
 		doc.NodeList.RootElements = rapid.SliceOfN(rapid.SampledFrom(ids), 0, 3).Draw(t, "roots")
+		hx.ClassIf(addInverseEdges(t, doc.NodeList), "inverse_relationship_pair")
 	}
 	return doc
 }
